@@ -48,6 +48,17 @@ def dataset(kind, which):
             "variable": {"variable": "Precip", "units": "mm"}}
 
 
+# recorded findings (known_findings.json): a crash is KNOWN only at the recorded site AND for the recorded kind of combination
+TIME_AXES = {"time", "year", "month", "week", "day", "timeofday", "dayofyear", "monthofyear", "dayofmonth"}
+LOC_AXES = {"location", "lat", "lon", "elev"}
+KNOWN_CRASHES = {
+    "exception:ValueError@output.py:463": lambda c, kind: c["t"] == "mapimpact" and c["m"] in ("rmsf", "ign0"),
+    "exception:ValueError@output.py:1990": lambda c, kind: c["m"] == "change" and kind == "single-time",
+    "exception:OverflowError@output.py:3047": lambda c, kind: c["m"] == "taylor" and ((kind == "single-time" and c["x"] in TIME_AXES)
+                                                                                      or (kind == "single-location" and c["x"] in LOC_AXES)),
+}
+
+
 class _Timeout(Exception):
     pass
 
@@ -142,6 +153,7 @@ def run(ctx):
                 continue
             crashes.setdefault(cls, []).append([c["m"], c["x"], c["t"], c["v"], kind])
             ctx.diverge(cls, {"kind": "combo", "argv": c["argv"], "dataset": kind, "outcome": outcome},
+                        as_implemented=bool(KNOWN_CRASHES.get(cls, lambda c, k: False)(c, kind)),
                         detail="`verif A B %s` on dataset '%s' -> %s" % (" ".join(c["argv"]), kind, outcome))
     ctx.extra["outcomes"] = counts
     ctx.extra["crash_combinations"] = {k: v[:300] for k, v in crashes.items()}
